@@ -94,7 +94,9 @@ def rebalRemove (t : T α) : T α :=
 /-! ### Where would the C code store through `NIL`?
 
 `NIL` is a `static const` object; a store to it is undefined behaviour (a fault in
-practice).  The predicates say, for each primitive, whether the call executes such a store. -/
+practice).  The predicates say, for each primitive, whether the call executes such a store
+(or, for `split`, leaves the shapes on which the pattern-matching definition is the C code).
+Both can only happen at a real node of level 0; `UsualProofs` shows there is none. -/
 
 /-- `skew(x)` stores into `y = x->left`; that is NIL only if `x` is a real node of level 0
     without left child. -/
@@ -103,9 +105,14 @@ def skewNW : T α → Bool
   | _ => false
 
 /-- `split(x)` stores into `y = x->right`; NIL only if `x` is a real node of level 0
-    whose right child is NIL. -/
+    whose right child is NIL.  Second clause: for a real `x` of level 0 with a real right
+    child whose own right child is NIL the C test `x->level == y->right->level` (0 == 0)
+    succeeds and C rotates, which the pattern of `split` above does not represent — flagged
+    here as well, so that `…NW = false` means "no store through NIL *and* the model function
+    is exactly what the C code does". -/
 def splitNW : T α → Bool
   | node _ _ v nil => v == 0
+  | node _ _ v (node _ _ _ nil) => v == 0
   | _ => false
 
 /-- does `rebalance_on_remove(t)` store through NIL? -/
